@@ -169,10 +169,19 @@ class FuncRef:
 
 
 class RePattern:
-    _model = ('match', 'fullmatch', 'search', 'pattern')
+    _model = ('match', 'fullmatch', 'search', 'pattern', 'sub', 'findall', 'split')
 
     def __init__(self, pattern, flags=0):
         self.pattern, self.flags = pattern, flags
+
+    def sub(self, repl, string, count=0):
+        return self._c().sub(repl, string, count)
+
+    def findall(self, string):
+        return self._c().findall(string)
+
+    def split(self, string, maxsplit=0):
+        return self._c().split(string, maxsplit)
 
     def _c(self):
         return _re.compile(self.pattern, self.flags)
